@@ -100,7 +100,10 @@ Definition fstepobs := (op * oout * option filedata)%type.
 
 Inductive case :=
 | CFile (dirc : list bytes) (t : tables) (steps : list fstepobs)
-| CMem (steps : list (mop * oout)).
+| CMem (steps : list (mop * oout))
+  (* 8 callers of Key on a fresh name released together: (password, scalar of the key if this
+     caller created it, outcome), and the outcome of a later Key with the winner's password *)
+| CConc (callers : list (bytes * N * oout)) (later : oout).
 
 Section WithTables.
   Variable dirc : list bytes.
@@ -129,10 +132,36 @@ Fixpoint check_mem (m : mem) (steps : list (mop * oout)) (i : nat) : option (nat
       if oout_eqb (classify mx) x then check_mem m' rest (S i) else Some (i, classify mx)
   end.
 
+(** a concurrent first-use round agrees with the model iff SOME schedule of the atomic model
+    produces the observed outcomes; all schedules that start with the same caller give the same
+    outcomes, so it suffices to try the schedule led by the caller observed with created = true *)
+Fixpoint find_created (l : list (bytes * N * oout)) (i : nat) : option nat :=
+  match l with
+  | [] => None
+  | (_, _, OKeyR _ true) :: _ => Some i
+  | _ :: l' => find_created l' (S i)
+  end.
+Definition conc_model (callers : list (bytes * N * oout)) : option (list oout * oout) :=
+  match find_created callers 0 with
+  | None => None
+  | Some w =>
+      let ths0 := map (fun c => {| t_pw := fst (fst c); t_newkey := ser32 (snd (fst c)); t_out := None |}) callers in
+      let '(m, ths) := conc_run_atomic [] ([], ths0) (w :: seq 0 (length callers)) in
+      let wpw := match nth_error callers w with Some c => fst (fst c) | None => [] end in
+      Some (map (fun t => match t_out t with Some o => classify o | None => OPanicked end) ths,
+            classify (snd (mstep m (MKey [] wpw []))))
+  end.
+Definition check_conc (callers : list (bytes * N * oout)) (later : oout) : bool :=
+  match conc_model callers with
+  | Some (outs, l) => list_eqb oout_eqb outs (map snd callers) && oout_eqb l later
+  | None => false
+  end.
+
 Definition check_case (c : case) : bool :=
   match c with
   | CFile dirc t steps => match check_file dirc t [] steps 0 with None => true | Some _ => false end
   | CMem steps => match check_mem [] steps 0 with None => true | Some _ => false end
+  | CConc callers later => check_conc callers later
   end.
 
 (** (index of first disagreeing step, model's outcome, model's file afterwards) *)
@@ -140,4 +169,8 @@ Definition explain_case (c : case) : option (nat * oout * option filedata) :=
   match c with
   | CFile dirc t steps => check_file dirc t [] steps 0
   | CMem steps => option_map (fun r => (fst r, snd r, None)) (check_mem [] steps 0)
+  | CConc callers later =>
+      if check_conc callers later then None
+      else Some (match find_created callers 0 with Some w => w | None => 0%nat end,
+                 match conc_model callers with Some (_, l) => l | None => OPanicked end, None)
   end.
